@@ -79,6 +79,8 @@ type genState struct {
 	hold      []bool
 	pendingQ2 map[int][]uint16
 	pidCtr    uint16
+	stalled   map[int]bool
+	heldNext  map[int]int
 }
 
 // Generate builds a config and an operation list.
@@ -120,11 +122,11 @@ func (p *Profile) Generate(r *vk.Rand) (*Config, []string, []Op) {
 		}
 	}
 	n := len(p.SlotIDs)
-	st := &genState{connected: make([]bool, n), ver: make([]byte, n), hold: make([]bool, n), pendingQ2: map[int][]uint16{}}
+	st := &genState{connected: make([]bool, n), ver: make([]byte, n), hold: make([]bool, n), pendingQ2: map[int][]uint16{}, heldNext: map[int]int{}}
 	var ops []Op
 	steps := r.Range(p.Steps[0], p.Steps[1])
 	kinds := make([]string, 0, len(p.W))
-	for _, k := range []string{"connect", "subscribe", "unsubscribe", "publish", "disconnect", "ping", "hold", "tick", "retransmit", "pubrel", "ackone", "failwrite"} {
+	for _, k := range []string{"connect", "subscribe", "unsubscribe", "publish", "disconnect", "ping", "hold", "tick", "retransmit", "pubrel", "ackone", "failwrite", "stall"} {
 		if p.W[k] > 0 {
 			kinds = append(kinds, k)
 		}
@@ -207,6 +209,10 @@ func (p *Profile) Generate(r *vk.Rand) (*Config, []string, []Op) {
 			x -= p.W[k]
 		}
 		slot := r.Intn(n)
+		isStalled := st.stalled != nil && st.stalled[slot]
+		if isStalled && kind != "stall" && kind != "disconnect" && kind != "publish" {
+			continue // a connection that refuses the broker's writes sends nothing that needs a direct reply
+		}
 		switch kind {
 		case "connect":
 			if st.connected[slot] {
@@ -218,6 +224,9 @@ func (p *Profile) Generate(r *vk.Rand) (*Config, []string, []Op) {
 			op := mkConnect(slot)
 			ops = append(ops, op)
 			st.connected[slot], st.ver[slot], st.hold[slot] = true, op.Ver, false
+			if st.stalled != nil {
+				st.stalled[slot] = false
+			}
 			if op.Clean {
 				st.pendingQ2[slot] = nil
 			}
@@ -273,6 +282,9 @@ func (p *Profile) Generate(r *vk.Rand) (*Config, []string, []Op) {
 				op.Retain = true
 				op.Empty = r.Chance(p.EmptyPct)
 			}
+			if isStalled {
+				op.QoS = 0 // no acknowledgement has to be written to the stalled connection
+			}
 			if st.ver[slot] == 5 && r.Chance(p.PropsPct) {
 				op.Props = genAppProps(r)
 			}
@@ -295,6 +307,9 @@ func (p *Profile) Generate(r *vk.Rand) (*Config, []string, []Op) {
 			}
 			if op.QoS > 0 && r.Chance(p.CollidePct) {
 				op.Collide = true
+			} else if op.QoS == 2 && op.PID == 0 && p.CollidePct > 0 && r.Chance(p.CollidePct) {
+				op.CollideNext = true
+				st.heldNext[slot]++
 			}
 			ops = append(ops, op)
 		case "retransmit":
@@ -310,6 +325,11 @@ func (p *Profile) Generate(r *vk.Rand) (*Config, []string, []Op) {
 				} else {
 					ops = append(ops, Op{Kind: "pubrel", C: slot, PID: uint16(30001 + r.Intn(6))})
 				}
+				continue
+			}
+			if st.connected[slot] && st.heldNext[slot] > 0 && r.Chance(60) {
+				st.heldNext[slot]--
+				ops = append(ops, Op{Kind: "pubrel", C: slot}) // releases the oldest own QoS 2 publish made under a runtime-chosen id
 				continue
 			}
 			if !st.connected[slot] || len(st.pendingQ2[slot]) == 0 {
@@ -329,6 +349,10 @@ func (p *Profile) Generate(r *vk.Rand) (*Config, []string, []Op) {
 			}
 			if how == "will" && st.ver[slot] != 5 {
 				how = "drop"
+			}
+			if isStalled {
+				how = "drop"
+				st.stalled[slot] = false
 			}
 			dop := Op{Kind: "disconnect", C: slot, How: how}
 			if how == "normal" && st.ver[slot] == 5 && len(p.DiscExpiry) > 0 && r.Chance(p.DiscExpPct) {
@@ -352,6 +376,15 @@ func (p *Profile) Generate(r *vk.Rand) (*Config, []string, []Op) {
 				continue
 			}
 			ops = append(ops, Op{Kind: "ackone", C: slot})
+		case "stall":
+			if !st.connected[slot] {
+				continue
+			}
+			if st.stalled == nil {
+				st.stalled = map[int]bool{}
+			}
+			st.stalled[slot] = !st.stalled[slot]
+			ops = append(ops, Op{Kind: "stall", C: slot, Hold: st.stalled[slot]})
 		case "failwrite":
 			if !st.connected[slot] {
 				continue
